@@ -216,6 +216,9 @@ type refResult struct {
 	offset, limit int
 	multiset      bool  // compare as a multiset (joins, aggregates)
 	maxAvgRows    int64 // largest number of rows that went into one AVG value
+	// some AVG of the query runs over values for which an average that is re-rounded after every row (in some
+	// order of the rows) differs from the true rounded average: the input predicate of known finding D11
+	avgStepDiffers bool
 }
 
 func lookupField(fields []rField, r qRef) (int, string) {
@@ -505,6 +508,7 @@ func refEval(q *qQuery, tables map[string]*qTable) *refResult {
 				first []any
 				count []int64
 				sum   []int64
+				seq   [][]int64 // per AVG item: its operands in scan order
 			}
 			var groups []*group
 			for _, r := range rows {
@@ -525,7 +529,7 @@ func refEval(q *qQuery, tables map[string]*qTable) *refResult {
 					}
 				}
 				if g == nil {
-					g = &group{key: key, first: r, count: make([]int64, len(q.items)), sum: make([]int64, len(q.items))}
+					g = &group{key: key, first: r, count: make([]int64, len(q.items)), sum: make([]int64, len(q.items)), seq: make([][]int64, len(q.items))}
 					groups = append(groups, g)
 				}
 				for i, it := range q.items {
@@ -544,6 +548,7 @@ func refEval(q *qQuery, tables map[string]*qTable) *refResult {
 						}
 						g.count[i]++
 						g.sum[i] += v
+						g.seq[i] = append(g.seq[i], v)
 					}
 				}
 			}
@@ -575,6 +580,9 @@ func refEval(q *qQuery, tables map[string]*qTable) *refResult {
 						if g.count[i] > res.maxAvgRows {
 							res.maxAvgRows = g.count[i]
 						}
+						if stepAvgCanDiffer(g.seq[i]) {
+							res.avgStepDiffers = true
+						}
 					}
 				}
 				out = append(out, o)
@@ -597,6 +605,51 @@ func refEval(q *qQuery, tables map[string]*qTable) *refResult {
 	return res
 }
 
+// stepAvgCanDiffer: is there an order of the values in which the average re-rounded after every value
+// differs from the true rounded average? (up to 7 values: every order; beyond: assumed yes)
+func stepAvgCanDiffer(vals []int64) bool {
+	if len(vals) < 3 {
+		return false
+	}
+	if len(vals) > 7 {
+		return true
+	}
+	var sum int64
+	for _, v := range vals {
+		sum += v
+	}
+	want := avgMarker{sum: sum, n: int64(len(vals))}
+	differs := false
+	p := append([]int64{}, vals...)
+	var rec func(k int)
+	rec = func(k int) {
+		if differs {
+			return
+		}
+		if k == len(p) {
+			var avg int64
+			for i, v := range p {
+				avg = int64(math.Round(float64(avg*int64(i)+v) / float64(i+1)))
+			}
+			if !want.matches(avg) {
+				differs = true
+			}
+			return
+		}
+		for i := k; i < len(p); i++ {
+			p[k], p[i] = p[i], p[k]
+			rec(k + 1)
+			p[k], p[i] = p[i], p[k]
+		}
+	}
+	rec(0)
+	return differs
+}
+
+// avgWildcard: while set, an AVG value of the reference matches any integer (used to tell "only the AVG
+// values are off" from other disagreements).
+var avgWildcard bool
+
 // avgMarker stands for round(sum/n); an exact .5 may round either way.
 type avgMarker struct{ sum, n int64 }
 
@@ -604,6 +657,9 @@ func (a avgMarker) matches(v any) bool {
 	got, ok := v.(int64)
 	if !ok {
 		return false
+	}
+	if avgWildcard {
+		return true
 	}
 	exact := float64(a.sum) / float64(a.n)
 	if math.Abs(exact-math.Trunc(exact)) == 0.5 {
@@ -875,12 +931,24 @@ type queryRunner struct {
 func (r *queryRunner) check(qw *qWorld, q *qQuery, family string, knownID string) {
 	text := q.sql()
 	ref := refEval(q, qw.tables)
-	if knownID == "D11-avg-running-rounded" && ref.maxAvgRows < 3 {
-		knownID = "" // the predicate of D11: an AVG over a group of three or more rows
+	if knownID == "D11-avg-running-rounded" && !ref.avgStepDiffers {
+		// the predicate of D11: an AVG over three or more values whose step-wise re-rounded average can differ
+		// from the true one
+		knownID = ""
 	}
 	rows, fields, err := qw.run(text)
 	r.nQuery++
 	msg := compareResult(ref, rows, fields, err)
+	if msg != "" && knownID == "D11-avg-running-rounded" {
+		// D11 explains wrong AVG values only: with those left out of the comparison the rest must agree
+		avgWildcard = true
+		rest := compareResult(ref, rows, fields, err)
+		avgWildcard = false
+		if rest != "" {
+			knownID = ""
+			msg = "(apart from the AVG values covered by known finding D11) " + rest
+		}
+	}
 	if _, isPanic := err.(*panicErr); q.mayReject && err != nil && !isPanic {
 		msg = "" // rejecting the statement is acceptable, answering it wrongly is not
 	}
